@@ -155,7 +155,7 @@ pub fn run(ctx: &Ctx) -> Rep {
     {
         // expected enums per value, taken from a neutral-context conversion that the pass above compared with the model
         let neutral: Vec<HandRank> = (0..=65535u32).map(|v| HandRank::from(v as u16)).collect();
-        let all_pairs = ctx.thorough() || (ctx.escalate && !ctx.smoke());
+        let all_pairs = ctx.thorough();
         let vchunks: Vec<&[u16]> = values.chunks(256).collect();
         let sh = par_run(ctx, vchunks.len(), mk, |st, ci| {
             for &a in vchunks[ci] {
